@@ -396,7 +396,7 @@ func check(prop, tier string) int {
 			go func(w int) {
 				defer wg.Done()
 				args := []string{"-profile", leg.Profile, "-from", fmt.Sprint(legBase + uint64(w)), "-stride", fmt.Sprint(W),
-					"-n", fmt.Sprint(per), "-seconds", fmt.Sprint(capS), "-known", filepath.Join(verif, "known_findings.txt")}
+					"-n", fmt.Sprint(per), "-seconds", fmt.Sprint(capS), "-known", filepath.Join(verif, "known_findings.txt"), "-prop", prop}
 				gmp := 1
 				if leg.Race {
 					gmp = 4
